@@ -32,6 +32,14 @@ def main():
     m["checks"] = checks
     m["not_applicable"] = napp
     json.dump(m, open(os.path.join(HOME, "MANIFEST.json"), "w"), indent=1)
+    # known findings: one committed file assembled from the per-property fragments
+    kd = os.path.join(HOME, "known.d")
+    findings = []
+    if os.path.isdir(kd):
+        for f in sorted(os.listdir(kd)):
+            if f.endswith(".json"):
+                findings += json.load(open(os.path.join(kd, f)))
+    json.dump({"findings": findings}, open(os.path.join(HOME, "known_findings.json"), "w"), indent=1)
     try:
         import jsonschema
         jsonschema.validate(m, json.load(open("/root/.vp/MANIFEST.schema.json")))
